@@ -49,6 +49,9 @@ func checkC12(c *Ctx, r *Report) {
 		r.undecided("C12.SHARED", "anchors: request-time entry points", token.NoPos, fmt.Sprintf("only %d of 9 public entry points found", len(entries)))
 		return
 	}
+	if a := c.anchors(); len(a.missing) == 0 {
+		cacheVerdictRule(c, r, a, "C12.CACHE", "a request's response then depends on which Go type another request made the cache see first: it is no longer the response the request gets when run alone")
+	}
 	eng := newEffEngine(c)
 	eng.run(entries...)
 	r.Tables["guard_table"] = map[string]string{
